@@ -69,4 +69,19 @@ def run(ctx, b, broken):
                 want = f"E{US}f.c:{l}:1: Illegal character '@'"
                 if io != want:
                     su.violation("\n".join(ls), f"illegal character at f.c:{l}:1 reported as {io[:80]!r}")
+    # error locations of malformed input at many positions: the location computation of every error path is compared with
+    # the model's (directive errors, illegal characters, unterminated literals, parser errors at a given token), under
+    # indentation, tabs, preceding lines and a preceding #line
+    BAD_LINES = ["#line foo", "# line   12u", "#   3 \"f.c\" x", "#line 3 4", "#line", "#line 5 \"a.c\" junk", "#  7 8", "#line 0x10", "#line 1.5", "# 1 'c'", "#line -3",
+                 "#line \"f.c\"", "# \"f.c\" 3", "#include <x.h>", "#define X 1", "#", "#pragma", "#pragmatic", "int x = 1 @ 2;", "int y = `;", "char *s = \"abc;", "int c = 'ab;",
+                 "int z = 08;", "int w = 1.2.3;", "int q = 0x;", "int v = '';", "int u = '\\q';", "char *t = \"a\\qb\";", "int a b;", "int f( { }", "int g(void) { return }", "}", "int h = ;",
+                 "struct { int } s;", "void k(void) { if }", "int m[;", "typedef int;", "int n = sizeof(;", "x y z;"]
+    for bad in BAD_LINES:
+        for lead in ("", "   ", "\t ", " \t\t"):
+            for pre in ("", "int ok;\n", "\n\n", "#line 40 \"inc.h\"\nint ok2;\n", "# 7\n\n"):
+                text = pre + lead + bad + "\nint after;\n"
+                ctx.evaluations += 1
+                ctx.count("suite:error-locations")
+                ctx.nontriv(("errloc", text))
+                su.corr(text, impl_parse(text), tag="error location (directed)")
     su.finish()
